@@ -32,7 +32,7 @@ mut("c02_undo_castle_rook_stays", GM, "                self.board.remove_at(rook
 mut("c02_undo_promotion_keeps_piece", GM, "        if mv.promotion().is_some() {\n            self.board.set_at(from, Piece::new(player, PieceKind::Pawn));\n        } else {", "        if false {\n            self.board.set_at(from, Piece::new(player, PieceKind::Pawn));\n        } else {", ["C02"])
 mut("c02_clock_not_reset_on_pawn_move", GM, "maybe_captured_piece.is_some() || moved_piece.kind == PieceKind::Pawn;", "maybe_captured_piece.is_some();", ["C02", "C11"])
 mut("c02_ep_target_always_recorded", GM, "            if en_passant_can_happen {\n                Some(from.forward(player))", "            if en_passant_can_happen || true {\n                Some(from.forward(player))", ["C02", "C17"])
-mut("c02_rights_only_on_king_moves", GM, "            if from == squares::kingside_rook_start(player) {\n                self.try_remove_castle_rights(player, CastleRightsSide::Kingside);", "            if false {\n                self.try_remove_castle_rights(player, CastleRightsSide::Kingside);", ["C02", "C01"])
+mut("c02_rights_only_on_king_moves", GM, "            if from == squares::kingside_rook_start(player) {\n                self.try_remove_castle_rights(player, CastleRightsSide::Kingside);", "            if false {\n                self.try_remove_castle_rights(player, CastleRightsSide::Kingside);", ["C02", "C17"])
 mut("c02_rook_capture_keeps_right", GM, "            if to == squares::kingside_rook_start(other_player) {\n                self.try_remove_castle_rights(other_player, CastleRightsSide::Kingside);", "            if false {\n                self.try_remove_castle_rights(other_player, CastleRightsSide::Kingside);", ["C02"])
 mut("c02_undo_null_keeps_ep", GM, "        self.zobrist = history.zobrist;\n        self.en_passant_target = history.en_passant_target;\n        self.halfmove_clock = history.halfmove_clock;\n        self.incremental_eval = history.incremental_eval;\n    }", "        self.zobrist = history.zobrist;\n        self.halfmove_clock = history.halfmove_clock;\n        self.incremental_eval = history.incremental_eval;\n    }", ["C02"])
 mut("c02_ep_victim_bitboards_only", GM, "            let capture_square = to.backward(player);\n            self.remove_at(capture_square);", "            let capture_square = to.backward(player);\n            self.board.remove_at(capture_square);", ["C03", "C15"], [])
@@ -45,7 +45,8 @@ mut("c03_hash_ignores_ep", Z, "    hash ^= en_passant(game.en_passant_target);\n
 mut("c03_two_components_equal", Z, "    unsafe {\n        components::SIDE_TO_PLAY = random.next_u64();\n    }", "    unsafe {\n        components::SIDE_TO_PLAY = random.next_u64();\n        components::CASTLING[1][1] = components::CASTLING[0][0];\n    }", ["C03"])
 
 ASP = "src/engine/search/aspiration.rs"
-mut("c04_revert_d2", ASP, "clamp_alpha(saturating_sub(eval, width))", "clamp_alpha(eval - width)", ["C04"])
+mut("c04_revert_d2", ASP, "clamp_alpha(saturating_sub(self.alpha, self.width))", "clamp_alpha(self.alpha - self.width)", ["C04", "C08"])
+mut("c04_revert_d2_up", ASP, "clamp_beta(saturating_add(self.beta, self.width))", "clamp_beta(self.beta + self.width)", ["C04"])
 mut("c04_revert_d3", "src/engine/transposition_table.rs", "self.generation = self.generation.wrapping_add(1);", "self.generation += 1;", ["C04", "C19"])
 mut("c04_killer_index_plus_one", "src/engine/search/negamax.rs", "ctx.killer_moves.try_push(plies, mv);", "ctx.killer_moves.try_push(plies + 250, mv);", ["C04"])
 mut("c04_bestmove_from_tt_of_other_position", "src/engine/transposition_table.rs", "                if entry.key == *key {\n                    return Some(&entry.data);", "                if entry.key.0 as u32 == key.0 as u32 {\n                    return Some(&entry.data);", ["C19"], [])
@@ -67,7 +68,9 @@ mut("c06_move_number_zero_panics", FP, "fullmove_number.saturating_sub(1) * 2", 
 
 MG = "src/chess/movegen/tables/magics.rs"
 mut("c07_magic_bit_flip", MG, "(0xA7020080601803D8, 60984)", "(0xA7020080601803D9, 60984)", ["C07"])
-mut("c07_offset_off_by_one", MG, "(0x13802040400801F1, 66046)", "(0x13802040400801F1, 66047)", ["C07"])
+# equivalent mutant: the table is filled through the same index function, shifting one square's region by one slot collides with nothing
+mut("c07_offset_off_by_one_equivalent", MG, "(0x13802040400801F1, 66046)", "(0x13802040400801F1, 66047)", [], ["C07"])
+mut("c07_offset_into_neighbour_region", MG, "(0x13802040400801F1, 66046)", "(0x13802040400801F1, 60990)", ["C07"])
 mut("c07_rook_shift", MG, "const ROOK_SHIFT: usize = 12;", "const ROOK_SHIFT: usize = 11;", ["C07"])
 mut("c07_between_antidiagonal", "src/chess/movegen/tables/between.rs", "        let direction = if start_square.rank() < end_square.rank() {\n            Direction::NorthEast\n        } else {\n            Direction::SouthEast\n        };", "        let direction = if start_square.rank() < end_square.rank() || start_square.file().idx() == 6 {\n            Direction::NorthEast\n        } else {\n            Direction::SouthEast\n        };", ["C07"])
 mut("c07_knight_offset", "src/chess/movegen/tables/attacks.rs", "    attacks |= sq.west().south_west();", "    attacks |= sq.west().west();", ["C07", "C01"])
